@@ -135,7 +135,7 @@ Proof.
     rewrite find_none_iff in F. specialize (F t). rewrite in_req_tokens in F. specialize (F Ht).
     unfold incomplete in F. apply negb_false_iff in F. apply Nat.eqb_eq in F. exact F.
   - (* complete_at_cancel *)
-    intros before mid post E Hn Hs t Ht. subst tr.
+    intros before mid post E Hn t Ht. subst tr.
     set (pre := before ++ EvCancelBegin :: mid).
     assert (Etr : before ++ EvCancelBegin :: mid ++ EvCancelEnd :: post = pre ++ EvCancelEnd :: post).
     { unfold pre. rewrite <- app_assoc. reflexivity. }
@@ -147,14 +147,7 @@ Proof.
     assert (Ef : firstn (length before) (pre ++ EvCancelEnd :: post) = before).
     { unfold pre. rewrite <- app_assoc. apply firstn_app_exact. }
     rewrite Ef in H.
-    assert (Es : skipn (length before) pre = EvCancelBegin :: mid).
-    { unfold pre. rewrite skipn_app, Nat.sub_diag, skipn_all. reflexivity. }
-    rewrite Es in H. simpl in H.
-    assert (X : existsb is_set_servers mid = false).
-    { destruct (existsb is_set_servers mid) eqn:X; auto.
-      apply existsb_exists in X. destruct X as [e [He1 He2]]. destruct e; simpl in He2; try discriminate.
-      contradiction. }
-    rewrite X in H.
+    simpl in H.
     destruct (find _ _) eqn:F in H; try discriminate.
     rewrite find_none_iff in F. specialize (F t). rewrite in_req_tokens in F. specialize (F Ht).
     apply Nat.ltb_ge in F. exact F.
@@ -182,15 +175,10 @@ Proof.
     assert (Ef : firstn (length before) tr = before).
     { rewrite Etr, Ep, <- app_assoc. apply firstn_app_exact. }
     rewrite Ef.
-    assert (Es : skipn (length before) pre = EvCancelBegin :: mid).
-    { rewrite Ep, skipn_app, Nat.sub_diag, skipn_all. reflexivity. }
-    rewrite Es. simpl.
-    destruct (existsb is_set_servers mid) eqn:X; auto.
-    assert (Hs : ~ In EvSetServers mid).
-    { apply (existsb_false_not_in is_set_servers); auto. }
+    simpl.
     assert (Etr' : tr = before ++ EvCancelBegin :: mid ++ EvCancelEnd :: post).
     { rewrite Etr at 1. rewrite Ep, <- app_assoc. reflexivity. }
-    specialize (H4 _ _ _ Etr' Hn Hs).
+    specialize (H4 _ _ _ Etr' Hn).
     destruct (find _ _) eqn:F; auto.
     apply find_some in F. destruct F as [F1 F2].
     apply in_req_tokens in F1. specialize (H4 _ F1).
